@@ -319,17 +319,21 @@ func genHealth(rng *rand.Rand, seed int64) *Scenario {
 	run := 0
 	for k := 0; k < ticks; k++ {
 		r := 1
-		switch rng.Intn(6) {
+		switch rng.Intn(7) {
 		case 0, 1, 2:
 			r = 0
 		case 3:
 			r = 2
+		case 4:
+			if rng.Intn(2) == 0 {
+				r = []int{4, 4, 5}[rng.Intn(3)] // answers only when its context expires
+			}
 		}
 		// bias towards runs around the threshold
 		if run > 0 && run < m && rng.Intn(3) > 0 {
 			r = 0
 		}
-		if r == 0 {
+		if r == 0 || r == 5 {
 			run++
 		} else {
 			run = 0
@@ -442,7 +446,8 @@ func genTamper(rng *rand.Rand, seed int64) *Scenario {
 		}
 	}
 	for j := 0; j < 3; j++ {
-		sc.Steps = append(sc.Steps, Step{At: time.Duration(rng.Int63n(int64(t + 2*h))), Kind: []string{"validate", "validate-or-demote"}[rng.Intn(2)], Inst: 1 + rng.Intn(n)})
+		sc.Steps = append(sc.Steps, Step{At: time.Duration(rng.Int63n(int64(t + 2*h))), Kind: []string{"validate", "validate-or-demote"}[rng.Intn(2)], Inst: 1 + rng.Intn(n),
+			Cancelled: rng.Intn(4) == 0})
 	}
 	if rng.Intn(3) == 0 {
 		// a Status() call that overlaps the first demotion of the first instance (issued from inside its critical section)
@@ -496,8 +501,16 @@ func genVacancy(rng *rand.Rand, seed int64) *Scenario {
 	n := 2 + rng.Intn(3)
 	sc := &Scenario{Name: "vacancy", Seed: seed, StoreTTL: 3 * h, Lat: map[int]LatSpec{0: {Min: 1 * ms, Max: h / 8}},
 		WatchMin: 1 * ms, WatchMax: h / 2, Sample: h / 2, NoPreempt: true, MaxLat: h / 8, NoOutside: true}
+	// (one in three: the whole group is configured for priority takeover with equal priorities - nobody may preempt
+	//  anybody, and a refused takeover must leave a follower, not a candidate that has given up)
+	eq := rng.Intn(3) == 0
 	for i := 1; i <= n; i++ {
-		sc.Insts = append(sc.Insts, baseInst(i, h))
+		is := baseInst(i, h)
+		if eq {
+			is.Takeover = true
+			is.Prio = 2
+		}
+		sc.Insts = append(sc.Insts, is)
 		sc.Steps = append(sc.Steps, Step{At: time.Duration(i-1) * 40 * ms, Kind: "start", Inst: i})
 	}
 	sc.WatchDrop = []float64{0, 0.3, 1}[rng.Intn(3)]
